@@ -61,7 +61,7 @@ func (e *Eng) findingsFor(name string) []*Finding {
 // collectObjTypes lists the multi-cell element types of slices that occur
 // in the repository's own packages.
 func (e *Eng) collectObjTypes() {
-	o := &ObjTypes{keys: map[string]int{}}
+	o := &ObjTypes{keys: map[string]int{}, skeys: map[string]int{}}
 	seen := map[string]bool{}
 	nestedArr := map[string]bool{} // element types that occur in arrays nested in structs
 	var visit func(t types.Type, inStruct bool)
@@ -95,6 +95,13 @@ func (e *Eng) collectObjTypes() {
 			}
 			visit(u.Elem(), inStruct)
 		case *types.Struct:
+			if n, ok := t.(*types.Named); ok && n.Obj().Pkg() != nil && strings.HasPrefix(n.Obj().Pkg().Path(), modPath) && n.TypeArgs() == nil {
+				sk := types.TypeString(t, nil)
+				if _, ok := o.skeys[sk]; !ok {
+					o.skeys[sk] = len(o.structs)
+					o.structs = append(o.structs, t)
+				}
+			}
 			for i := 0; i < u.NumFields(); i++ {
 				visit(u.Field(i).Type(), true)
 			}
@@ -134,7 +141,7 @@ func (e *Eng) collectObjTypes() {
 	for k := range nestedArr {
 		if i, ok := o.keys[k]; ok {
 			delete(o.keys, k)
-			o.elems[i] = types.Typ[types.Invalid]
+			o.elems[i] = nil
 		}
 	}
 	e.objTypes = o
@@ -351,7 +358,7 @@ func load(repo, verifDir string, patterns []string) (*Eng, error) {
 		}
 		for k, c := range sf.Funcs {
 			key := k
-			if sf.Pkg != "" {
+			if sf.Pkg != "" && !c.Extern {
 				key = qualifyKey(sf.Pkg, k)
 			}
 			c.Key = key
@@ -366,7 +373,7 @@ func load(repo, verifDir string, patterns []string) (*Eng, error) {
 	}
 	// every in-repo contract must name an existing function
 	for key, c := range e.contracts {
-		if c.Pkg == "" {
+		if c.Pkg == "" || c.Extern {
 			continue
 		}
 		if e.fnByKey[key] == nil {
